@@ -25,7 +25,7 @@ def model_record_harnesses(tier, seed):
     (h must see the point in the user's units): the saved / returned (x, resid, obj) stay one record"""
     from . import c17
     hs = []
-    for h in c17.harnesses('quick', seed):
+    for h in c17.model_harnesses('quick', seed):
         if h.params.get('scaling') and h.params['op'] in ('save_point_abs', 'save_point_rel', 'get_final_results', 'change_point', 'add_new_sample'):
             h.home = 'C03'
             h.name = 'model:' + h.name
